@@ -21,6 +21,7 @@ KINDS = [
     (r"cannot align", "align"), (r"is not a valid name", "invalid_name"), (r"did not converge", "not_converged"),
     (r"must lie between 0 and \$10000|relocated address would be negative", "pc_range"),   # C06 program-counter range fix
     (r"overflow", "eval:overflow"), (r"cyclic import", "cyclic_import"),
+    (r"cannot loop", "loop_limit"), (r"may be nested at most", "nesting_limit"),
 ]
 
 
@@ -66,6 +67,9 @@ def correspondence(chk, model, r, files, opts, what):
         chk.tie_break("correspondence:status", "%s: implementation %s, model %s" % (what, {k: r[k] for k in ("panic", "hang", "crash") if k in r}, m["status"]), replay)
         return m, "impl-crash"
     iok = bool(r.get("ok"))
+    if not iok and any(kind_of(e["msg"]) in ("loop_limit", "nesting_limit", "cyclic_import") for e in r.get("errors", [])):
+        # limits of the implementation (C06) that the model does not follow: not compared
+        return m, "limit"
     if iok != (m["status"] == "done"):
         chk.tie_break("correspondence:status", "%s: implementation ok=%s (%s), model %s (%s)" % (
             what, iok, [e["msg"] for e in r.get("errors", [])][:3], m["status"], m.get("errors", [])[:3]), replay)
